@@ -96,7 +96,7 @@ func C06(ctx *Ctx) {
 		}
 	}
 	R.Count("label-methods", nLabel)
-	R.Floor("label-methods", 8)
+	R.Floor("label-methods", 2)
 	// ---- Finalize, arbitrary iteration
 	fin := ctx.Prog.Method("asm", "Emitter", "Finalize")
 	if fin == nil {
